@@ -32,6 +32,8 @@ SCEN = {
     "dmrg3_reorder": dict(n=3, shuffle=True, duration=20, dt=10.0, kind="dmrg", reorder=True),
     "noisy3": dict(n=3, shuffle=False, duration=30, dt=10.0, kind="noisy", reorder=False),
     "tdvp5_reorder": dict(n=5, shuffle=True, duration=20, dt=10.0, kind="tdvp", reorder=True),
+    # state-preparation errors: the snapshot must carry (or rebuild) everything derived from the bad-atom draw
+    "spam4": dict(n=4, shuffle=True, duration=20, dt=10.0, kind="spam", reorder=True),
 }
 
 
@@ -59,6 +61,8 @@ def _config(sc: dict):
         kw["solver"] = Solver.DMRG
     if sc["kind"] == "noisy":
         kw["noise_model"] = pulser.NoiseModel(relaxation_rate=2.0, dephasing_rate=1.0)
+    if sc["kind"] == "spam":
+        kw["noise_model"] = pulser.NoiseModel(state_prep_error=0.4)
     return MPSConfig(**kw)
 
 
@@ -90,6 +94,20 @@ def crash_worker(job: dict) -> dict:
     try:
         seq = seqs.build_sequence(_spec(sc))
         out["register"] = [str(q) for q in seq.register.qubit_ids]
+        if sc["kind"] == "spam":
+            # choose (deterministically from the job seed) a draw with at least one bad and at least two good atoms; the
+            # reference run and the interrupted run use the same seed, hence the same draw
+            import numpy as _np
+            from emu_base import PulserData
+            s0 = 4242
+            for s_ in range(s0, s0 + 200):
+                _np.random.seed(s_)
+                bad = list(next(iter(PulserData(sequence=seq, config=_config(sc), dt=sc["dt"]).get_sequences())).bad_atoms)
+                nb = sum(1 for b in bad if b)
+                if 1 <= nb <= sc["n"] - 2:
+                    break
+            _np.random.seed(s_)
+            out["bad_atoms"] = [bool(b) for b in bad]
         try:
             res = MPSBackend(seq, config=_config(sc)).run()
             out["results"] = results_table(res)
@@ -171,7 +189,7 @@ def run(ctx: Ctx) -> None:
         "noiseless comparison tolerance 1e-7 absolute; noisy runs: Python's global RNG state is not part of the snapshot, so only distributional equality is demanded",
         "MPSRun.tla mechanism switch ResumePermutes is read off the real resume path",
     ]
-    scen_names = ["tdvp3", "tdvp4_reorder", "dmrg3_reorder", "noisy3"] if ctx.quick else list(SCEN)
+    scen_names = ["tdvp3", "tdvp4_reorder", "dmrg3_reorder", "noisy3", "spam4"] if ctx.quick else list(SCEN)
     # ---- uninterrupted reference runs
     base_jobs = [{"scen": s, "crash_after": None, "seed": 100 + ctx.seed, "dir": str(ctx.work / f"ref_{s}")} for s in scen_names]
     base = {r["job"]["scen"]: r for r in pmap(crash_worker, base_jobs)}
